@@ -626,6 +626,31 @@ class ResetToNull:
         return VoidV()
 
 
+class ResetNoArg:
+    """rv.reset(): the same as rv = nullptr; reset(p) with an argument is not part of the factory as contracted"""
+
+    def __call__(self, ex, n, st, objn, argn, this_override=None):
+        if [a for a in argn if a.get('kind') != 'CXXDefaultArgExpr']:
+            raise ExtractionError(f'{ex.unit}: reset() of the result pointer with an argument (line {ex.curline})')
+        d = objn
+        while d.get('kind') in ('ImplicitCastExpr', 'ParenExpr'):
+            d = d['inner'][0]
+        vid = d.get('referencedDecl', {}).get('id')
+        cur = st.env.get(vid)
+        if not isinstance(cur, ObjRef):
+            raise ExtractionError(f'{ex.unit}: reset() on {cur}')
+        st.env[vid] = ObjRef(cur.name, cur.cls, null=z3.BoolVal(True))
+        ex.logw(('v', vid))
+        return VoidV()
+
+
+class StringIsEmpty:
+    """impedance_file.empty(): the negation of the factory input `a file name is given`"""
+
+    def __call__(self, ex, n, st, objn, argn, this_override=None):
+        return BoolV(z3.Not(z3.Bool('arg:impedance_file_given')))
+
+
 class StringNonEmpty:
     """impedance_file != "" : an input of the factory"""
 
@@ -695,7 +720,7 @@ class MakeImpedance(Contract):
                 'ctor:vfps::Impedance': FileTemp(),
                 'vfps::Impedance::operator+=': Use(ImpedanceAddAssign(), inst=inst),
                 'operator+=': Use(ImpedanceAddAssign(), inst=inst),
-                'operator!=': StringNonEmpty(),
+                'operator!=': StringNonEmpty(), 'empty': StringIsEmpty(), 'reset': ResetNoArg(),
                 'operator=': AssignOrReset(),
                 'printText': lambda ex, n, st, objn, argn, this_override=None: VoidV()}
 
